@@ -273,11 +273,31 @@ func selectionFieldNames(sel string) []string {
 			depth--
 		default:
 			if depth == 0 {
-				out = append(out, tok)
+				name, _ := splitSelToken(tok)
+				out = append(out, name)
 			}
 		}
 	}
 	return out
+}
+
+// splitSelToken splits a field of a field set that carries arguments, written
+// without blanks (`size(unit:CM)`), into its name and its argument values
+// (enum values and strings as strings, integers as json.Number-like strings are
+// not needed: the models only use enum arguments in field sets).
+func splitSelToken(tok string) (string, map[string]any) {
+	i := strings.Index(tok, "(")
+	if i < 0 || !strings.HasSuffix(tok, ")") {
+		return tok, nil
+	}
+	args := map[string]any{}
+	for _, kv := range strings.Split(tok[i+1:len(tok)-1], ",") {
+		p := strings.SplitN(kv, ":", 2)
+		if len(p) == 2 {
+			args[strings.TrimSpace(p[0])] = strings.Trim(strings.TrimSpace(p[1]), `"`)
+		}
+	}
+	return tok[:i], args
 }
 
 // Subgraphs generates the subgraph SDLs of a layout.
@@ -606,7 +626,8 @@ func splitSelection(sel string) []selMember {
 			out[len(out)-1].text += " }"
 		default:
 			if depth == 0 {
-				out = append(out, selMember{name: t, text: t})
+				name, _ := splitSelToken(t)
+				out = append(out, selMember{name: name, text: t})
 			} else {
 				out[len(out)-1].text += " " + t
 			}
